@@ -188,7 +188,9 @@ theorem complete_spec {rd : Reader} (ok : RdOk rd) (idx : Nat) (h1 : rd.proc ≤
     (h3 : idx ∉ rd.arrived) :
     ∃ fin rd', rd.complete idx = .ok (fin, rd') ∧
       (fin = false → RdOk rd' ∧ rd'.lay = rd.lay ∧ rd'.req = rd.req ∧ rd.proc ≤ rd'.proc ∧
-        ∀ i, rd'.proc ≤ i → i < rd.req → i ∉ rd'.arrived → rd.proc ≤ i ∧ i ∉ rd.arrived ∧ i ≠ idx) := by
+        (∀ i, rd'.proc ≤ i → i < rd.req → i ∉ rd'.arrived → rd.proc ≤ i ∧ i ∉ rd.arrived ∧ i ≠ idx) ∧
+        (∀ j, rd.proc ≤ j → j ≠ idx → j ∉ rd.arrived → rd'.proc ≤ j ∧ j ∉ rd'.arrived)) ∧
+      (fin = true → ∀ j, rd.proc ≤ j → j < rd.lay.total → j = idx ∨ j ∈ rd.arrived) := by
   have hk : ¬ (rd.lay.known rd.proc ≤ idx) := by have := ok.rk; omega
   unfold Reader.complete
   rw [if_neg hk]
@@ -223,9 +225,12 @@ theorem complete_spec {rd : Reader} (ok : RdOk rd) (idx : Nat) (h1 : rd.proc ≤
       exact ⟨ok.pt, (g4 rd.proc).2 ⟨List.mem_cons_self .., by omega⟩⟩
     by_cases hfin : p' = rd.lay.total
     · rw [if_pos hfin, hfin, if_pos (known_total ok.wf)]
-      exact ⟨true, _, rfl, fun h => by cases h⟩
+      refine ⟨true, _, rfl, (fun h => by cases h), fun _ j q1 q2 => ?_⟩
+      have := (g5 j q1 (by omega)).1
+      simpa using this
     · rw [if_neg hfin]
-      refine ⟨false, _, rfl, fun _ => ⟨⟨ok.wf, hpr, ?_, by show p' < rd.lay.total; omega, ?_, g3⟩, rfl, rfl, g2, ?_⟩⟩
+      refine ⟨false, _, rfl, (fun _ => ⟨⟨ok.wf, hpr, ?_, by show p' < rd.lay.total; omega, ?_, g3⟩, rfl, rfl, g2, ?_, ?_⟩),
+        fun h => by cases h⟩
       · show rd.req ≤ rd.lay.known p'
         have := ok.wf.mono rd.proc p' g2
         have := ok.rk
@@ -247,11 +252,18 @@ theorem complete_spec {rd : Reader} (ok : RdOk rd) (idx : Nat) (h1 : rd.proc ≤
           exact q3' ((g4 i).2 ⟨hm, by omega⟩)
         simp only [List.mem_cons, not_or] at this
         exact ⟨by omega, this.2, by omega⟩
+      · intro j q1 q2 q3
+        have hja : j ∉ rd.proc :: rd.arrived := by simp only [List.mem_cons, not_or]; exact ⟨q2, q3⟩
+        refine ⟨?_, fun hm => hja ((g4 j).1 hm).1⟩
+        show p' ≤ j
+        by_cases hlt : j < p'
+        · exact absurd (g5 j q1 hlt).1 hja
+        · omega
   · simp only [if_neg he]
     have hfin : ¬ (rd.proc = rd.lay.total) := by have := ok.pt; omega
     rw [if_neg hfin]
-    refine ⟨false, _, rfl, fun _ => ⟨⟨ok.wf, ok.pr, ok.rk, ok.pt, ?_, List.nodup_cons.2 ⟨h3, ok.nd⟩⟩, rfl, rfl,
-      Nat.le_refl _, ?_⟩⟩
+    refine ⟨false, _, rfl, (fun _ => ⟨⟨ok.wf, ok.pr, ok.rk, ok.pt, ?_, List.nodup_cons.2 ⟨h3, ok.nd⟩⟩, rfl, rfl,
+      Nat.le_refl _, ?_, ?_⟩), fun h => by cases h⟩
     · intro i hi
       rcases List.mem_cons.1 hi with rfl | hi
       · exact ⟨Nat.lt_of_le_of_ne h1 (fun e => he e.symm), h2⟩
@@ -260,5 +272,9 @@ theorem complete_spec {rd : Reader} (ok : RdOk rd) (idx : Nat) (h1 : rd.proc ≤
       have : i ∉ idx :: rd.arrived := q3
       simp only [List.mem_cons, not_or] at this
       exact ⟨q1, this.2, this.1⟩
+    · intro j q1 q2 q3
+      refine ⟨q1, ?_⟩
+      show j ∉ idx :: rd.arrived
+      simp only [List.mem_cons, not_or]; exact ⟨q2, q3⟩
 
 end Nomt.Wk
